@@ -1,0 +1,103 @@
+//! Verification hook (compiled only with `--cfg quinn_rs_quinn_verif`).
+//!
+//! Components: `varint`, `pn`.
+#![allow(missing_docs, dead_code, unused_imports, unreachable_pub, clippy::all)]
+use super::{Ops, Outs};
+use crate::{
+    VarInt,
+    coding::{BufExt, BufMutExt, Codec},
+    packet::PacketNumber,
+};
+use bytes::Buf;
+
+fn bytes_of(v: &[i128]) -> Vec<u8> {
+    v.iter().map(|x| *x as u8).collect()
+}
+
+fn out_bytes(tag: i128, b: &[u8]) -> Vec<i128> {
+    let mut o = vec![tag];
+    o.extend(b.iter().map(|x| *x as i128));
+    o
+}
+
+/// varint ops:
+///   [0, x]            encode x (x < 2^62)         -> [0, bytes...]   | [1] if out of range
+///   [1, b0, b1, ...]  decode from bytes           -> [0, value, consumed] | [1] (UnexpectedEnd)
+///   [2, x]            size                         -> [0, size]
+fn varint(ops: &Ops) -> Outs {
+    ops.iter()
+        .map(|op| match op[0] {
+            0 => match VarInt::from_u64(op[1] as u64) {
+                Ok(v) => {
+                    let mut buf = Vec::new();
+                    v.encode(&mut buf);
+                    out_bytes(0, &buf)
+                }
+                Err(_) => vec![1],
+            },
+            1 => {
+                let b = bytes_of(&op[1..]);
+                let mut r = &b[..];
+                match VarInt::decode(&mut r) {
+                    Ok(v) => vec![0, v.into_inner() as i128, (b.len() - r.remaining()) as i128],
+                    Err(_) => vec![1],
+                }
+            }
+            2 => match VarInt::from_u64(op[1] as u64) {
+                Ok(v) => vec![0, v.size() as i128],
+                Err(_) => vec![1],
+            },
+            _ => vec![-1],
+        })
+        .collect()
+}
+
+/// pn ops:
+///   [0, n, largest_acked]   new+encode  -> [0, len, bytes...]  (caller guarantees la <= n, 2(n-la) < 2^32)
+///   [1, len, expected, b..] decode(len) + expand(expected) -> [0, value] | [1] on decode error
+///   [2, n, largest_acked, expected] full round trip -> [0, expanded]
+fn pn(ops: &Ops) -> Outs {
+    ops.iter()
+        .map(|op| match op[0] {
+            0 => {
+                let p = PacketNumber::new(op[1] as u64, op[2] as u64);
+                let mut buf = Vec::new();
+                p.encode(&mut buf);
+                let mut o = vec![0, p.len() as i128];
+                o.extend(buf.iter().map(|x| *x as i128));
+                o
+            }
+            1 => {
+                let len = op[1] as usize;
+                let b = bytes_of(&op[3..]);
+                if b.len() < len {
+                    return vec![1];
+                }
+                let mut r = &b[..];
+                match PacketNumber::decode(len, &mut r) {
+                    Ok(p) => vec![0, p.expand(op[2] as u64) as i128],
+                    Err(_) => vec![1],
+                }
+            }
+            2 => {
+                let p = PacketNumber::new(op[1] as u64, op[2] as u64);
+                let mut buf = Vec::new();
+                p.encode(&mut buf);
+                let mut r = &buf[..];
+                match PacketNumber::decode(p.len(), &mut r) {
+                    Ok(q) => vec![0, q.expand(op[3] as u64) as i128],
+                    Err(_) => vec![1],
+                }
+            }
+            _ => vec![-1],
+        })
+        .collect()
+}
+
+pub(crate) fn run(comp: &str, ops: &Ops) -> Option<Outs> {
+    match comp {
+        "varint" => Some(varint(ops)),
+        "pn" => Some(pn(ops)),
+        _ => None,
+    }
+}
